@@ -700,6 +700,77 @@ def rule_r24_body(body, counts):
     return body
 
 
+def rule_r0_body(body, counts):
+    """R0 (layout only): a line that starts with `.` continues the method chain of the previous line (rustfmt breaks long chains);
+    the pieces are joined so that the expression-level rules, which work on single lines, see the whole chain."""
+    lines = body.split('\n')
+    out = []
+    n = 0
+    for l in lines:
+        if out and l.lstrip().startswith('.') and not l.lstrip().startswith('..') and not out[-1].rstrip().endswith(('{', ';', '}')) \
+                and '//' not in out[-1]:
+            out[-1] = out[-1].rstrip() + l.lstrip()
+            n += 1
+        else:
+            out.append(l)
+    if n:
+        counts['R0'] = counts.get('R0', 0) + n
+    return '\n'.join(out)
+
+
+def _wrap_loop_body(body, for_start, new_header, n_close):
+    """replace the header of the `for` statement starting at for_start (up to and including its `{`) by new_header and add n_close
+    closing braces before the loop's own closing brace"""
+    pos = _loop_open_brace(body[for_start:])
+    ob = for_start + pos
+    cb = _match_brace(body, ob)
+    return body[:for_start] + new_header + body[ob + 1:cb].rstrip() + '\n' + ('} ' * n_close) + '// [R22]\n' + body[cb:]
+
+
+def rule_r22_body(body, counts):
+    """R22: iterator adapters in a `for` header are turned into guards inside the loop (definition of Iterator::filter / filter_map):
+       `for P in R.filter(|CP| C) {B}`  ->  `for P in R { if C {B} }`   (CP binds a subset of the names of P at the same tuple positions;
+                                                                          C uses them only through field / method access)
+       `for (a, b) in R.filter_map(|a| { O[.filter(|b| C)].map(|b| (a, b)) }) {B}`  ->  `for a in R { if let Some(b) = O { [if C {] B [}] } }`"""
+    # filter_map form (the closure is a block; after R0 its chain stands on one line)
+    pat_fm = re.compile(r'for \((\w+), (\w+)\) in ([^\n{|]+?)\.filter_map\(\|(\w+)\| \{\s*\n?\s*([^\n]+?)\.map\(\|(\w+)\| \((\w+), (\w+)\)\)\s*\n?\s*\}\) \{')
+    while True:
+        m = pat_fm.search(body)
+        if not m:
+            break
+        a, b, recv, ca, opt, mb, ta, tb = m.groups()
+        cond = None
+        mf = re.match(r'^(.*)\.filter\(\|(\w+)\| ([^|]+)\)$', opt)
+        if mf:
+            opt, fb, cond = mf.group(1), mf.group(2), mf.group(3).strip()
+            if fb != b:
+                raise ExtractError('R22: filter parameter %s is not the loop variable %s' % (fb, b))
+        if not (a == ca == ta and b == mb == tb):
+            raise ExtractError('R22: filter_map closure does not rebuild the loop pattern (%s, %s)' % (a, b))
+        if cond is not None and re.search(r'(\*\s*%s\b|\b%s\s*[=!]=|[=!]=\s*%s\b)' % (b, b, b), cond):
+            raise ExtractError('R22: filter condition uses %s by value' % b)
+        hdr = 'for %s in %s {\nif let Some(%s) = %s { ' % (a, recv, b, opt) + ('if %s { ' % cond if cond is not None else '') + '// [R22]'
+        body = _wrap_loop_body(body, m.start(), hdr, 2 if cond is not None else 1)
+        counts['R22'] = counts.get('R22', 0) + 1
+    pat_f = re.compile(r'for (\([^)]*\)|\w+) in ([^\n{|]+?)\.filter\(\|(\([^)]*\)|\w+)\| ([^\n]+?)\) \{')
+    while True:
+        m = pat_f.search(body)
+        if not m:
+            break
+        pat, recv, cpat, cond = m.groups()
+        pn = [x.strip() for x in pat.strip('()').split(',')]
+        cn = [x.strip() for x in cpat.strip('()').split(',')]
+        if len(pn) != len(cn) or any(c != '_' and c != p_ for c, p_ in zip(cn, pn)):
+            raise ExtractError('R22: filter closure pattern %s does not match the loop pattern %s' % (cpat, pat))
+        for c in cn:
+            if c != '_' and re.search(r'(\*\s*%s\b|\b%s\s*[=!]=|[=!]=\s*%s\b)' % (c, c, c), cond):
+                raise ExtractError('R22: filter condition uses %s by value' % c)
+        hdr = 'for %s in %s {\nif %s { // [R22]' % (pat, recv, cond.strip())
+        body = _wrap_loop_body(body, m.start(), hdr, 1)
+        counts['R22'] = counts.get('R22', 0) + 1
+    return body
+
+
 def rule_r23_body(body, counts):
     """R23: `format!("p0{}p1{}p2", a, b)` -> `verif_fmt2("p0", &a, "p1", &b, "p2")` (only plain `{}` placeholders, at most 3, literal
     format string without escaped braces); the stub's result is the concatenation of the literal pieces and the Display text of the
@@ -753,6 +824,7 @@ def rule_r23_body(body, counts):
 
 
 RULES_BODY['R23'] = rule_r23_body
+RULES_BODY['R22'] = rule_r22_body
 
 
 def find_line(lines, regex, k, what):
@@ -1207,6 +1279,10 @@ def emit_fn(d, unit, report, canaries):
         for pos, argstr, text in sorted(located, key=lambda x: -x[0]):
             body = rule_blockcall(body, argstr, text, fname, rel, qual, counts, info, at_line=pos)
     body = strip_statement_macro(body, counts)
+    if 'R0' in rules:
+        body = rule_r0_body(body, counts)
+    if 'R22' in rules:
+        body = rule_r22_body(body, counts)
     body = rule_r24_body(body, counts)
     body = rule_time(body, counts)
     if 'R1' in rules:
